@@ -203,12 +203,13 @@ c09_harness!(c09_syscall_state_requests, sequence(4));
 /// C07/C08 sequences: one scripted coroutine resumed until it finishes (2 steps): the reported
 /// states follow the documented graph, values cross faithfully, and a finished coroutine is never
 /// stepped again.
-c09_harness!(c07_scripted_body_path, {
-    any_plan(5);
+/// (the first step's kind is concrete per harness - 4 instances; the second step's kind, all timestamps and values symbolic)
+fn scripted_body_path(k0: u8) {
     unsafe {
-        // keep to Running-state steps here (0,1,2,5); syscall-state steps are covered above
-        kani::assume(PLAN[0][0].kind != 3 && PLAN[0][0].kind != 4);
-        kani::assume(PLAN[0][1].kind != 3 && PLAN[0][1].kind != 4);
+        PLAN[0][0] = Step { kind: k0, ts: kani::any(), val: if kani::any() { Some(kani::any()) } else { None }, y: kani::any() };
+        let k1: u8 = kani::any();
+        kani::assume(k1 == 0 || k1 == 1 || k1 == 2 || k1 == 5);
+        PLAN[0][1] = Step { kind: k1, ts: kani::any(), val: if kani::any() { Some(kani::any()) } else { None }, y: kani::any() };
         // a delayed coroutine is resumed only once it is due
         VNOW = u64::MAX;
     }
@@ -238,12 +239,13 @@ c09_harness!(c07_scripted_body_path, {
             kani::assert(corosensei::verif_resume_count() == before + 1, "each resume of a live coroutine steps it exactly once");
         }
     }
-    kani::cover!(matches!(r0, CoroutineState::Suspend(_, _)), "suspended after the first step");
-    kani::cover!(matches!(r0, CoroutineState::Complete(_)), "completed in the first step");
-    kani::cover!(r0 == CoroutineState::Cancelled, "cancelled in the first step");
+    kani::cover!(true, "the whole two-step path was executed");
     core::mem::forget(co);
-});
-
+}
+c09_harness!(c07_scripted_body_suspend_first, scripted_body_path(0));
+c09_harness!(c07_scripted_body_delay_first, scripted_body_path(1));
+c09_harness!(c07_scripted_body_cancel_first, scripted_body_path(2));
+c09_harness!(c07_scripted_body_return_first, scripted_body_path(5));
 
 // ---------------------------------------------------------------------------------------- C25 (owner side)
 // "values still stored are dropped when the coroutine is dropped": the coroutine-local storage is a field of the
